@@ -27,7 +27,8 @@ def run(ctx):
     lines, meta = [], []
     for si in range(n):
         pwreq = r.random() < .3
-        hs, desc = viewer_handshake(r, pwreq)
+        hs, desc = viewer_handshake(r, pwreq, odd=(r.random() < .1))
+        ctx.count("viewer_version_odd" if desc.startswith("odd") else "viewer_version_known")
         vmsgs = gen_viewer_messages(r, r.randint(0, 10), allow_unrecordable=(r.random() < .3))
         malformed = r.random() < .12
         if malformed:
@@ -77,12 +78,14 @@ def run(ctx):
         ok = True
         ml = ["px-new %d %d" % (pwreq, 5000)]
         recs = []
+        closes = []
         for d in order:
             if d == "v":
                 ch = vch[vi]; vi += 1
                 fwd, recd, exc = p.viewer_sends(ch)
                 ml.append("px-recv " + hx(ch))
                 recs.append(["rec:" + x.encode("utf-8", "surrogatepass").hex() for x in recd])
+                closes.append(p.srv.transport.closed)
             else:
                 ch = sch[si_]; si_ += 1
                 fwd, exc = p.server_sends(ch)
@@ -91,6 +94,10 @@ def run(ctx):
                   "how": "in-memory VNCLoggingServerProxy/VNCLoggingClientProxy pair; every chunk must appear unchanged on the other side within the same dataReceived call"}
             if exc:
                 ctx.violate("relay-exception" if exc != "spin" else "relay-stalls", dict(rp, observed="%s-side dataReceived raised / did not return: %s (chunk of %d bytes)" % ("viewer" if d == "v" else "server", exc, len(ch))))
+                ok = False
+                break
+            if d == "v" and p.srv.transport.closed and vstream[:8] == b"RFB 003." and vstream[8:12] in (b"003\n", b"005\n", b"007\n", b"008\n"):
+                ctx.violate("relay-closes", dict(rp, observed="the proxy closed the viewer's connection although its version line %r is one the recorder understands" % vstream[:12]))
                 ok = False
                 break
             if fwd != ch:
@@ -105,19 +112,24 @@ def run(ctx):
         ctx.count("recording_stopped" if not p.srv.recording else "recording_on")
         ctx.count("logger_stopped" if p.cl.vnclog is None else "logger_on")
         if ok:
-            meta.append((len(lines), ml, recs, p.srv.recording, {"handshake": desc, "password_required": pwreq, "viewer_stream": hx(vstream), "viewer_chunks": [len(c) for c in vch]}))
+            meta.append((len(lines), ml, recs, closes, p.srv.recording, {"handshake": desc, "password_required": pwreq, "viewer_stream": hx(vstream), "viewer_chunks": [len(c) for c in vch]}))
             lines += ml
     unlimit_memory(oldlim)
     mout = ctx.drive(lines)
     if mout is not None:
-        for off, ml, recs, recording, inp in meta:
+        for off, ml, recs, closes, recording, inp in meta:
             mrec, stopped = [], False
+            mclosed = False
             for i, l in enumerate(ml):
                 if l.startswith("px-recv"):
                     o = mout[off + i]
                     mrec += [t for t in o.split(" ") if t.startswith("rec:")]
                     if "raise:" in o or o == "stopped":
                         stopped = True
+                    if "closeviewer" in o.split(" "):
+                        mclosed = True
             irec = [t for ch in recs for t in ch]
+            if (any(closes) != mclosed) and recording:
+                ctx.disagree("model-vs-RFBServer-close", {"input": inp, "impl": {"closed_viewer": any(closes)}, "model": {"closed_viewer": mclosed}})
             if irec != mrec or stopped == recording:
                 ctx.disagree("model-vs-RFBServer", {"input": inp, "impl": {"records": len(irec), "recording": recording}, "model": {"records": len(mrec), "stopped": stopped}})
